@@ -10,6 +10,7 @@ import math
 from hypothesis import strategies as st
 
 from pv import gen
+from pv import specs as _specs
 
 PI = math.pi
 N_WORDS = 384
@@ -103,3 +104,42 @@ def pauli_word(R, ws, max_len=3, letters="XYZ", ident=0.0):
     names = {"X": "PauliX", "Y": "PauliY", "Z": "PauliZ", "H": "Hadamard", "I": "Identity"}
     fs = [{"op": "Identity" if coin(R, ident) else names[R.choice(letters)], "w": [w]} for w in sub]
     return fs[0] if len(fs) == 1 else {"op": "prod", "operands": fs}
+
+
+# ------------------------------------------------------------------------------------------- builders (extended obs kinds)
+
+def build_obs(s):
+    import pennylane as qp
+
+    k = s["op"]
+    if k == "hamiltonian":
+        return qp.Hamiltonian([_specs.param(c) for c in s["coeffs"]], [build_obs(o) for o in s["operands"]])
+    if k == "lincomb":
+        return qp.ops.LinearCombination([_specs.param(c) for c in s["coeffs"]], [build_obs(o) for o in s["operands"]])
+    if k == "prod":
+        return qp.prod(*[build_obs(o) for o in s["operands"]])
+    if k == "sum":
+        return qp.sum(*[build_obs(o) for o in s["operands"]])
+    if k == "s_prod":
+        return qp.s_prod(_specs.param(s["c"]), build_obs(s["base"]))
+    return _specs.build_op(s)
+
+
+def build_meas(m):
+    import pennylane as qp
+
+    obs = build_obs(m["obs"]) if m.get("obs") else None
+    if obs is None:
+        return _specs.build_meas(m)
+    k = m["mp"]
+    if k == "expval":
+        return qp.expval(obs)
+    if k == "var":
+        return qp.var(obs)
+    if k == "probs":
+        return qp.probs(op=obs)
+    if k == "sample":
+        return qp.sample(op=obs)
+    if k == "counts":
+        return qp.counts(op=obs, all_outcomes=m.get("all_outcomes", False))
+    raise ValueError(k)
